@@ -95,6 +95,12 @@ class C12:
             if "dropbox" in p:
                 continue
             yield {"k": "corpus", "path": p, "subprocess": False}
+        from vf.props.progbase import OLD_ASM
+        for v in OLD_ASM:
+            tab = self.pp.old_tables(ctx, v)
+            sweeps = [it for it in ga.opcode_sweeps(tab) if any(i.get("to") is not None for i in it)]
+            for items in ga.jump_patterns(tab) + sweeps:
+                yield {"k": "asmold", "v": v, "items": items, "subprocess": False}
         for v in ALL_VERSIONS:
             for items in ga.jump_patterns(self.pp.tables(ctx, v)):
                 yield {"k": "asm", "v": v, "items": items, "subprocess": False}
@@ -105,6 +111,8 @@ class C12:
                 yield {"k": "rawcode", "v": v, "code": rw.hx(code), "subprocess": False}
 
     def judge(self, case, ctx):
+        if case.get("k") == "asmold":
+            return self.judge_one(case, ctx)
         if case.get("k") == "asmpair":
             return self.judge_pair(case, ctx)
         return self.judge_one(case, ctx)
@@ -142,6 +150,23 @@ class C12:
                 res.reject = "corpus-file-too-big-for-tier"
                 return res
             label = case["path"]
+        elif k == "asmold":
+            # versions nobody can run: the listing of an assembled code object against the harness's own decode
+            from vf.props.progbase import OLD_ASM
+            if case.get("v") not in OLD_ASM:
+                res.reject = "malformed-case"
+                return res
+            built = self.pp.old_file(ctx, case["v"], case.get("items"))
+            if built is None:
+                res.reject = "malformed-case"
+                return res
+            tab, co_code, dec, labels, hdr, payload, sk = built
+            ref = {"dis": [{"instrs": [{"o": o, "j": o in labels} for (o, op, arg, tgt) in dec]}]}
+            path = os.path.join(ctx.scratch, "l.pyc")
+            with open(path, "wb") as f:
+                f.write(hdr + payload)
+            label = "%s:assembled" % case["v"]
+            k = "asm"
         elif k in ("prog", "stdlib", "asm", "rawcode", "lnotab", "loctab") and case.get("v") in ALL_VERSIONS:
             v = case["v"]
             if k in ("lnotab", "loctab"):
@@ -301,7 +326,7 @@ class C12:
                         for m in rows:
                             o = int(m.group(4))
                             if o in rj and bool(m.group(3)) != rj[o]:
-                                res.fail(sig + "|jump-mark-vs-cpython", "%s: offset %d %s: listing %s '>>' but CPython's dis says is_jump_target=%s" % (
+                                res.fail(sig + "|jump-mark-vs-cpython", "%s: offset %d %s: listing %s '>>' but the reference (CPython's dis, or the harness decode for versions without an interpreter) says is_jump_target=%s" % (
                                     label, o, m.group(6), "shows" if m.group(3) else "has no", rj[o]))
                                 return
                     break
